@@ -22,6 +22,15 @@ from .core import AnalysisError, dotted, unparse, strip_docstring
 TERMLIKE = ("Term", "Intercept", "NegatedIntercept", "GroupSpecificTerm")
 
 
+class _Infeasible(Exception):
+    pass
+
+
+class _Raised(Exception):
+    def __init__(self, what):
+        self.what = what
+
+
 class Gen:
     """a family of terms: template string + sorted binder strings"""
 
@@ -131,14 +140,39 @@ class Summariser:
         self.other_name = m.params[1] if len(m.params) > 1 else None
         self.normalised = False
         outs = []
-        for conds, status, val in self._block(strip_docstring(m.node.body), env, ()):
-            if status == "return":
-                outs.append((conds, val))
-            elif status == "raise":
-                outs.append((conds, Val("raise", what=val)))
-            elif status == "fall":
-                outs.append((conds, Val("none")))
-        return outs
+        # an operator applied to the operands inside the overload (`self @ other`) has several outcomes of its own: the body is
+        # re-interpreted once per combination of outcomes (choice points are keyed by the BinOp node)
+        self._choices = {}
+        self._arity = {}
+        import itertools
+        done = set()
+        while True:
+            combos = [dict(zip(self._arity, c)) for c in itertools.product(*[range(k) for k in self._arity.values()])] or [{}]
+            todo = [c for c in combos if tuple(sorted(c.items())) not in done]
+            if not todo:
+                break
+            for c in todo:
+                done.add(tuple(sorted(c.items())))
+                self._choices = c
+                for conds, status, val in self._block(strip_docstring(m.node.body), env, ()):
+                    if status == "return":
+                        outs.append((conds, val))
+                    elif status == "raise":
+                        outs.append((conds, Val("raise", what=val)))
+                    elif status == "fall":
+                        outs.append((conds, Val("none")))
+            if len(done) > 64:
+                raise AnalysisError(f"algebra: too many nested operator outcomes in {m.qual}")
+        uniq, seen = [], set()
+        for conds, val in outs:
+            try:
+                k = (conds, self.normal(val))
+            except AnalysisError:
+                k = (conds, id(val))
+            if k not in seen:
+                seen.add(k)
+                uniq.append((conds, val))
+        return uniq
 
     def _block(self, stmts, env, conds):
         states = [(env, conds)]
@@ -157,6 +191,20 @@ class Summariser:
         return finals + [(c, "fall", e) for e, c in states]
 
     def _stmt(self, s, env, conds):
+        self._conds = conds
+        self._extra = []
+        try:
+            out = self._stmt0(s, env, conds)
+        except _Infeasible:
+            return []
+        except _Raised as e:
+            return [(conds + tuple(x for x in self._extra if x not in conds), "raise", e.what)]
+        if not self._extra or isinstance(s, (ast.If, ast.For)):
+            return out
+        extra = tuple(self._extra)
+        return [(c + tuple(x for x in extra if x not in c), st, pl) for c, st, pl in out]
+
+    def _stmt0(self, s, env, conds):
         if isinstance(s, ast.Return):
             return [(conds, "return", self._expr(s.value, env))]
         if isinstance(s, ast.Raise):
@@ -422,10 +470,47 @@ class Summariser:
                 return model_of(self.gens_of(l), diff=self.gens_of(r))
             if isinstance(n.op, ast.BitOr):
                 return Val("delegate", left=l, right=r, op="|")
-            raise AnalysisError(f"algebra: unmodelled operator in `{unparse(n)}`")
+            return self._nested_operator(n, l, r)
         if isinstance(n, ast.ListComp):
             return self._comprehension(n, env)
         raise AnalysisError(f"algebra: unmodelled expression `{unparse(n)[:70]}` in {self.fn.qual}")
+
+    NESTED = {ast.MatMult: "__matmul__", ast.Mult: "__mul__", ast.Div: "__truediv__", ast.Pow: "__pow__"}
+    CONTRA = [("SELF == OTHER", "SELF != OTHER"), ("SELF in OTHER", "SELF not in OTHER"), ("OTHER in SELF", "OTHER not in SELF"),
+              ("I in OTHER", "I not in OTHER")]
+
+    def _nested_operator(self, n, l, r):
+        """`self <op> other` inside an overload: the outcomes of that overload on the same operands (summarised recursively);
+        the interpretation of the enclosing body is repeated for each outcome that is consistent with the path conditions"""
+        d = self.NESTED.get(type(n.op))
+        if d is None or getattr(l, "ref", None) != "SELF" or getattr(r, "ref", None) != "OTHER" \
+                or getattr(l, "cls", None) != self.lcls or getattr(r, "cls", None) != self.rcls:
+            raise AnalysisError(f"algebra: unmodelled operator in `{unparse(n)}`")
+        if (self.fn.name == d) or getattr(self, "_depth", 0) >= 3:
+            raise AnalysisError(f"algebra: recursive operator in `{unparse(n)}`")
+        sub = Summariser(self.prog)
+        sub._depth = getattr(self, "_depth", 0) + 1
+        alts = sub.summarise(self.lcls, d, self.rcls)
+        if not alts:
+            raise AnalysisError(f"algebra: {self.lcls} has no {d} (`{unparse(n)}`)")
+        have = set(self._conds) | set(self._extra)
+
+        def feasible(c):
+            return not any((a in c and b in have) or (b in c and a in have) for a, b in self.CONTRA)
+
+        alts = [(c, v) for c, v in alts if feasible(c)]
+        if not alts:
+            raise _Infeasible()
+        k = id(n)
+        if len(alts) > 1 and self._arity.get(k) != len(alts):
+            self._arity[k] = len(alts)
+        c, v = alts[self._choices.get(k, 0) % len(alts)]
+        for x in c:
+            if x not in have:
+                self._extra.append(x)
+        if v.kind == "raise":
+            raise _Raised(v.what)
+        return v
 
     def _inline(self, helper, args, env):
         """a module-level helper of terms.py with a single `return <expr>` body is summarised in place"""
